@@ -34,6 +34,7 @@ THEOREMS = ["JanetModel.Props.C09." + t for t in (
     "asm_operand_roundtrip", "asm_operand_rejects",                                      # assembler operand fields (asm . disasm)
     "env_slot_test_is_bit", "env_walk_visits_set_bits",                                  # closure env written from a live frame
     "roundtrip_code", "roundtrip_funcdef", "roundtrip_funcenv", "code_ids_agree", "roundtrip_code_top",   # functions, funcdefs, closure envs
+    "code_model_extends_data_model",                                                     # Code.lean = Graph.lean on data heaps (marshal side)
     "asm_disasm_instr", "asm_disasm_bytecode",                                           # asm . disasm on instruction words / bytecode arrays
     "abstract_hook_roundtrip", "int64_hooks_paired", "int64_box_roundtrip", "channel_hooks_paired", "channel_roundtrip",  # abstract hook protocol
 )]
